@@ -32,6 +32,11 @@ def run(ctx):
     ]
     proved = prove(ctx, MODULES)
     run_coll(ctx, 3000 if q else 100000, 12, "drops", oracle_props=["C06"])
+    # the exclusive-borrow collections filled across chunk boundaries (values read back after a move must be the ones pushed)
+    run_coll(ctx, 150 if q else 5000, 10, "mutgrow", oracle_props=["C06"], seed_offset=5, label="mutgrow(MutBumpVec / MutBumpVecRev across chunks)")
+    if q:
+        # split / merge / partition / map / into_flattened / conversions, sized and zero-sized (by counts)
+        run_coll(ctx, 1, 1, "split", oracle_props=["C06", "C16"], seed_offset=3, label="split(parts dropped in both orders)")
     if not q:
         run_coll(ctx, 6000, 14, "deep", oracle_props=["C06"], seed_offset=7, label="deep(every panic index, every dropped value as bomb)")
         run_coll(ctx, 2, 1, "split", oracle_props=["C06"], seed_offset=3, label="split(parts dropped in both orders)")
